@@ -27,9 +27,14 @@ def run(idx, rep, tier):
     # ------------------------------------------------------------ (a) explicit _rmatmat vs _matmat
     n = 0
     for ci in idx.operator_classes():
-        rm = ci.methods.get("_rmatmat")
-        if rm is None or ci.name == "LinearOperator":
+        # the left product of every CONCRETE kind, own or inherited from an intermediate base class (template-method bases
+        # such as a shared Transpose/Adjoint implementation are evaluated once per concrete subclass, with `self` of that class)
+        rm = idx.find_method(ci, "_rmatmat")
+        if rm is None or ci.name == "LinearOperator" or rm.cls is None or rm.cls.name == "LinearOperator":
             continue
+        if any(te._is_abstract(m_) for m_ in ci.methods.values()):
+            continue  # an abstract base: judged through its concrete subclasses
+        te.self_cls = ci
         mm = idx.find_method(ci, "_matmat")
         construct = f"{ci.name}._rmatmat"
         loc = idx.loc(rm.module, rm.node)
@@ -60,6 +65,7 @@ def run(idx, rep, tier):
         rep.decide(ok, "left-product", construct, f"_matmat(X) = {show(norm(tm))}; _rmatmat(X) = {got_s}; required {want_s}" +
                    (f" [outside the grammar: {opaque_text(norm(tr))}]" if ok is None else ""), detail="" if ok else "mismatch", locs=[loc, idx.loc(mm.module, mm.node)],
                    derivation={"matmat": show(norm(tm)), "rmatmat": got_s, "want": want_s})
+    te.self_cls = None
     # ------------------------------------------------------------ default _rmatmat, self-adjoint branch
     base = idx.cls("LinearOperator")
     drm = base.methods.get("_rmatmat")
@@ -90,12 +96,14 @@ def run(idx, rep, tier):
             rep.missing_anchor(f"class {kind}")
             continue
         ci = idx.cls(kind)
-        mm = ci.methods.get("_matmat")
-        if mm is None:
+        mm = idx.find_method(ci, "_matmat")
+        if mm is None or mm.cls is None or mm.cls.name == "LinearOperator":
             rep.missing_anchor(f"{kind}._matmat")
             continue
+        te.self_cls = ci
         rets = [r for r in df.returns(mm.node) if r.value is not None]
         t = te.eval_in(mm, rets[0].value) if len(rets) == 1 else ("opaque", "returns")
+        te.self_cls = None
         want = MUL(KIND_DEF[kind]("self"), sym(mm.params[1]))
         ok = equal(t, want)
         rep.decide(ok, "wrapper-product", f"{kind}._matmat", f"evaluates to {show(norm(t))}; required {show(norm(want))}", detail="" if ok else "mismatch",
